@@ -61,6 +61,7 @@ fn main() {
         "C02" => props::c02::run(&mut rep, &tier, seed),
         "C03" => props::c03::run(&mut rep, &tier, seed),
         "C04" => props::c04::run(&mut rep, &tier, seed),
+        "C06" => props::c06::run(&mut rep, &tier, seed),
         "C07" => props::c07::run(&mut rep, &tier, seed),
         "C08" => props::c08::run(&mut rep, &tier, seed),
         "C09" => props::c09::run(&mut rep, &tier, seed),
